@@ -4,8 +4,10 @@ import (
 	"fmt"
 	"strconv"
 	"strings"
+	"time"
 
 	"github.com/oapi-codegen/runtime"
+	openapi_types "github.com/oapi-codegen/runtime/types"
 )
 
 // C06 / C04 typed layer: the text of an integer parameter through the runtime's binder (BindStyledParameterWithOptions into
@@ -79,6 +81,64 @@ func c06IntCorr(ctx *Ctx, n int) error {
 			if bound != want {
 				ctx.Res.Disagree("CORR runtime.BindStyledParameterWithOptions (integer destination) vs IntParse.parseInt", c, want, bound)
 			}
+		}
+	}
+	return nil
+}
+
+// c06DateCorr: time.Parse("2006-01-02") and the runtime binder into openapi_types.Date vs Model/DateParse.lean parse;
+// the accepted text formats back to itself.
+func c06DateCorr(ctx *Ctx, n int) error {
+	fixed := []string{"2024-02-29", "2023-02-29", "1900-02-29", "2000-02-29", "2021-13-01", "2021-00-10", "2021-1-01", "2021-01-1", "2021-04-31", "2021-04-30",
+		"2021-04-30x", " 2021-04-30", "2021/04/30", "20210430", "0000-01-01", "9999-12-31", "10000-01-01", "2021-04-00", "2021-04-32", "2021-02-30",
+		"٢٠٢١-٠٤-٣٠", "2021-04-30T00:00:00Z", "", "-2021-04-30", "2021-04--3", "2021-+4-30"}
+	years := []string{"0000", "0004", "1900", "2000", "2023", "2024", "2100", "9999", "021", "12345"}
+	months := []string{"00", "01", "02", "04", "06", "09", "11", "12", "13", "1", "2x"}
+	days := []string{"00", "01", "28", "29", "30", "31", "32", "9", "3a"}
+	seps := []string{"-", "-", "-", "/", "", " "}
+	for i := 0; i < n+len(fixed); i++ {
+		r := ctx.Rng.Fork()
+		s := ""
+		if i < len(fixed) {
+			s = fixed[i]
+		} else {
+			s = years[r.Intn(len(years))] + seps[r.Intn(len(seps))] + months[r.Intn(len(months))] + seps[r.Intn(len(seps))] + days[r.Intn(len(days))]
+		}
+		var m struct {
+			Ok    []int  `json:"ok"`
+			Text  string `json:"text"`
+			Error string `json:"error"`
+		}
+		if err := ctx.Model(J{"fn": "parseDate", "s": hx(s)}, &m); err != nil {
+			return err
+		}
+		model := "error"
+		if m.Error == "" {
+			model = fmt.Sprintf("%04d-%02d-%02d", m.Ok[0], m.Ok[1], m.Ok[2])
+			if unhx(m.Text) != s {
+				ctx.Res.Disagree("CORR DateParse.format (parse s) vs s", J{"text": s}, s, unhx(m.Text))
+			}
+		}
+		c := J{"text": s}
+		ctx.Res.Eval(c, true)
+		ctx.Res.Count("corr:date")
+		impl := "error"
+		if t, err := time.Parse("2006-01-02", s); err == nil {
+			impl = t.Format("2006-01-02")
+		}
+		if impl != model {
+			ctx.Res.Disagree("CORR time.Parse(\"2006-01-02\") vs DateParse.parse", c, model, impl)
+		}
+		if s == "" {
+			continue
+		}
+		var d openapi_types.Date
+		bound := "error"
+		if err := runtime.BindStyledParameterWithOptions("simple", "p", s, &d, runtime.BindStyledParameterOptions{ParamLocation: runtime.ParamLocationHeader, Explode: false, Required: true}); err == nil {
+			bound = d.Format("2006-01-02")
+		}
+		if bound != model {
+			ctx.Res.Disagree("CORR runtime.BindStyledParameterWithOptions (Date destination) vs DateParse.parse", c, model, bound)
 		}
 	}
 	return nil
